@@ -49,7 +49,10 @@ def cfg_text(flavors, modes, k, props=True):
 class StreamAdapter:
     """one real transport object of the given flavour over scripted doubles"""
 
-    def __init__(self, flavor):
+    def __init__(self, flavor, mutable=True):
+        """mutable: hand the transport bytearrays (and the *same* bytearray object again when the same content is queued
+        again, as a caller that keeps a pre-built frame does); otherwise immutable bytes.  Both are documented message
+        types ("data is string in python2 and bytes in python3"; the stacks queue Part.packed, a bytearray)."""
         env.use_repo()
         from ioflo.aio import wiring
         from ioflo.aio.tcp import clienting, serving
@@ -57,6 +60,9 @@ class StreamAdapter:
         self.flavor = flavor
         self.undo = []
         self.nloss = 0
+        self.mutable = mutable
+        self.handed = []       # [(object handed to tx(), bytes it held then)] in queue order: the caller's buffers
+        self.pool = {}         # content -> the bytearray object the caller keeps for it
         self.serial = flavor in ("serial", "device")
         self.client = flavor in ("client", "clienttls")
         self.wl = None
@@ -172,7 +178,7 @@ class StreamAdapter:
         res = {"t": "none"}
         used = ()
         if name == "Queue":
-            x.tx(enc(act["m"] if "m" in act else act["s"]))
+            self.queue(enc(act["m"] if "m" in act else act["s"]))
         elif name in ("ServiceTx", "ServiceTxOnce"):
             sock.push(self.txop, *[self._tx_answer(r) for r in act["s"]])
             if name == "ServiceTx":
@@ -209,9 +215,34 @@ class StreamAdapter:
             raise NotImplementedError(name)
         return res, used
 
+    def queue(self, content, same=True):
+        """hand one message to tx(): bytes, or a bytearray; same: reuse the caller's bytearray object of equal content"""
+        if not self.mutable:
+            buf = bytes(content)
+        elif same and content in self.pool:
+            buf = self.pool[content]
+        else:
+            buf = bytearray(content)
+            self.pool[content] = buf
+        self.handed.append((buf, bytes(content)))
+        if len(self.handed) > 64:          # long random runs: watch the recent buffers only
+            dropped = self.handed.pop(0)
+            if self.pool.get(dropped[1]) is dropped[0] and not any(h[0] is dropped[0] for h in self.handed):
+                del self.pool[dropped[1]]
+        self.x.tx(buf)
+
+    def intact(self):
+        """the buffers handed to tx() still hold what the caller put into them.  A transport must not modify a message
+        it was handed: the caller may queue the very same object again, and exactly-once / in-order delivery of that
+        second occurrence needs its bytes to be still there."""
+        return all(bytes(buf) == was for (buf, was) in self.handed)
+
     def project(self, res=None):
         x, sock = self.x, self.sock
         out = {"txes": tuple(dec(m) for m in x.txes), "rxbs": dec(x.rxbs)}
+        if len(self.handed) <= 64:
+            # `queued` = every byte ever queued = what the caller's buffers hold, in order (unchanged by the transport)
+            out["queued"] = dec(b"".join(bytes(buf) for (buf, was) in self.handed))
         if self.serial:
             out["wire"] = dec(sock.written)
         else:
@@ -263,8 +294,10 @@ def _jr(r):
 
 
 def random_trace(rng, flavor, nsteps, allow_cut=True):
-    """one seeded random execution; allow_cut=False: the peer never closes / the connection is never lost (long runs)"""
-    ad = StreamAdapter(flavor)
+    """one seeded random execution; allow_cut=False: the peer never closes / the connection is never lost (long runs).
+    Messages are bytes in a third of the traces, bytearrays otherwise; a quarter of the queue steps then queue a
+    bytearray object again that was queued before."""
+    ad = StreamAdapter(flavor, mutable=(rng.random() < 0.67))
     try:
         return _random_trace(rng, ad, flavor, nsteps, allow_cut)
     finally:
@@ -296,6 +329,8 @@ def _random_trace(rng, ad, flavor, nsteps, allow_cut):
             name = "Queue"
             n = rng.randint(1, 6)
             act["m"] = tuple(rng.randint(1, MAXB) for _ in range(n))
+            if ad.pool and rng.random() < 0.25:
+                act["m"] = dec(rng.choice(sorted(ad.pool)))      # the caller sends a frame it kept once more
         elif p < 0.55:
             name = "ServiceTxOnce" if (serial and rng.random() < 0.3) else "ServiceTx"
             kinds = []
@@ -337,6 +372,7 @@ def _random_trace(rng, ad, flavor, nsteps, allow_cut):
         x, sock = ad.x, ad.sock
         wire_all = sock.written if serial else sock.sent
         ev = {"ev": name, "res": _jres(res), "txes": [list(dec(m)) for m in x.txes], "rxbs": list(dec(x.rxbs)),
+              "intact": ad.intact(),
               "sent": list(dec(wire_all[nwire:])), "dl": list(dec(sock.delivered[ndl:]))}
         if len(wire_all) < nwire or len(sock.delivered) < ndl:
             raise AssertionError("the double's record of accepted bytes is not append-only")
@@ -369,6 +405,7 @@ def _random_trace(rng, ad, flavor, nsteps, allow_cut):
             # a wire log that rewrote its past: a final event the specification cannot accept
             evs.append({"ev": "ServiceTx", "s": [], "res": {"t": "none"}, "txes": [list(dec(m)) for m in ad.x.txes],
                         "rxbs": list(dec(ad.x.rxbs)), "sent": [], "dl": [], "wl": [-1], "rl": [-1], "cutoff": bool(ad.x.cutoff),
+                        "intact": True,
                         "connected": bool(getattr(ad.x, "connected", True)), "accepted": bool(getattr(ad.x, "accepted", True))})
     return evs
 
@@ -438,7 +475,7 @@ def run_c24(ctx):
         for (fl, a), n in taken.items():
             ctx.actions.setdefault(a, [0, 0])[1] += n
         paths, traces = graph_traces(g, 40, _label)
-        n, divs = replay.replay("C24", traces, lambda init: StreamAdapter(str(init["flavor"])))
+        n, divs = replay.replay("C24", traces, lambda init: StreamAdapter(str(init["flavor"]), mutable=(str(init["mode"]) != "both")))
         for d in divs:
             fl = d.steps[0]["state"]["flavor"] if d.steps else "?"
             d.where = "%s:%s" % (fl, d.where)
@@ -479,7 +516,7 @@ def run_c24(ctx):
 
 
 def _short(ev):
-    return {k: ev[k] for k in ("ev", "s", "m", "c", "h", "txes", "sent", "cutoff") if k in ev}
+    return {k: ev[k] for k in ("ev", "s", "m", "c", "h", "txes", "sent", "cutoff", "intact") if k in ev}
 
 
 PROPERTIES = {"C24": run_c24}
